@@ -31,6 +31,28 @@ use crate::versioning::file_metadata::FileMetadata;
 use crate::versioning::version::Version;
 use crate::{DbOptions, Operation, RainDbIterator, ReadOptions};
 
+// ---- small caches -----------------------------------------------------------------------------
+
+static TABLE_CACHE_CAPACITY: std::sync::atomic::AtomicUsize = std::sync::atomic::AtomicUsize::new(0);
+
+/// Capacity in entries (at least 2) of the table cache of databases opened from now on; 0 = the
+/// built-in default. With a tiny capacity tables are evicted and reopened all the time.
+pub fn set_table_cache_capacity(capacity: usize) {
+    TABLE_CACHE_CAPACITY.store(capacity, std::sync::atomic::Ordering::SeqCst);
+}
+
+pub(crate) fn table_cache_capacity() -> usize {
+    TABLE_CACHE_CAPACITY.load(std::sync::atomic::Ordering::SeqCst)
+}
+
+/// A block cache of the database's own LRU implementation with the given capacity in entries
+/// (at least 2), to be put into [`DbOptions::block_cache`].
+pub fn new_block_cache(
+    capacity: usize,
+) -> Arc<dyn crate::Cache<crate::tables::BlockCacheKey, Arc<crate::tables::block::DataBlockReader>>> {
+    Arc::new(crate::utils::cache::LRUCache::new(capacity))
+}
+
 /// A dynamically typed value carried by hook events.
 #[derive(Clone, Debug)]
 pub enum Val {
